@@ -764,6 +764,8 @@ class Interp:
         if isinstance(v, (Tup, Lst)) and isinstance(idx, Const) and isinstance(idx.v, int):
             if -len(v.items) <= idx.v < len(v.items) and not (getattr(v, "open", False) and idx.v < 0):
                 return v.items[idx.v]
+            if not getattr(v, "open", False) and not isinstance(v, OneShot):
+                raise _Raise(ExcV("builtins.IndexError", {}, [Const("list index out of range")]))  # a closed sequence has no such element
         if isinstance(v, Dct) and isinstance(idx, Const) and idx.v in v.items:
             return v.items[idx.v]
         if isinstance(v, Dct) and not isinstance(idx, Const) and dkey(idx) in v.items:
